@@ -13,7 +13,7 @@ Tpl == [T1 |-> <<"x", "http_port", "data_paths">>, T2 |-> <<"x", "log_path">>, T
 AllData == <<"b1", "b2", "b3", "c1", "c2", "c3", "p", "q">>
 \* where a data path can be relative to the installation ($ES = ES home = <node root>/install/elasticsearch-x):
 \* on another root, inside the ES home, SIBLINGS of the ES home whose name starts with its name, next to / inside the install root
-W(p, inHome, pre) == [p |-> p, inHome |-> inHome, pre |-> pre]
+W(p, inHome, pre) == [p |-> p, inHome |-> inHome, pre |-> pre, stuck |-> FALSE]
 Node == [vars |-> [http_port |-> S("39200"), log_path |-> S("$NODE/logs/server"), install_root_path |-> S("$ES"),
                    minimum_master_nodes |-> S("1"), cluster_settings |-> S("{}")],
          default_data |-> "$ES/data", home |-> "$ES",
